@@ -250,6 +250,77 @@ def normalise(edges, inits):
     return edges, [st(s) for s in inits]
 
 
+def driver(cinco, prop, seed, n_traces, length):
+    """Seeded random operations on the real objects: random plaintext lengths and bytes, fresh
+    random secrets (registered under new names), longer histories than TLC's bound."""
+    import random
+    import string
+
+    rng = random.Random(seed)
+    traces = []
+    shapes = ["none", "plain-str", "dict-no-method", "dict-empty-method", "dict-unknown-method", "dict-int-method", "dict-no-ciphertext",
+              "dict-int-ciphertext", "dict-bad-padding-b64", "dict-foreign-chars-b64", "dict-aes-short", "dict-aes-unaligned", "dict-aes-wrong-key", "list", "int"]
+    for t in range(n_traces):
+        w = World(cinco)
+        events = []
+        alg = rng.choice(["md5", "sha1", "sha224", "sha256", "sha384", "sha512"])
+        mine = []
+        try:
+            for _ in range(length):
+                r = rng.random()
+                if prop == "C08":
+                    if r < 0.4 or not w.store:
+                        n = rng.choice([0, 1, 15, 16, 17, 31, 32, 33, 64, rng.randint(0, 120)])
+                        ev = {"op": "Encrypt", "key": rng.choice(["K1", "K2"]), "m": rng.choice(["aes", "xor", "best"]), "pt": [rng.randint(0, 255) for _ in range(n)]}
+                    elif r < 0.7:
+                        ev = {"op": "Decrypt", "key": rng.choice(["K1", "K2"]), "i": rng.randint(1, len(w.store))}
+                    elif r < 0.8:
+                        n = rng.choice([0, 1, 16, 31, 33, 47, 50])
+                        m = rng.choice(["aes", "aes", "rot13", ""])
+                        if m == "aes" and n >= 32 and n % 16 == 0:
+                            n += 1
+                        ev = {"op": "DecryptBad", "key": rng.choice(["K1", "K2"]), "sv": {"m": m, "ct": {"k": "raw", "y": [rng.randint(0, 255) for _ in range(n)]}}}
+                    elif r < 0.9:
+                        cands = [i + 1 for i, (sv, k, pt) in enumerate(w.store) if sv.method == "aes" and len(pt) >= 17]
+                        if not cands:
+                            continue
+                        ev = {"op": "DecryptTruncated", "i": rng.choice(cands)}
+                    else:
+                        ev = {"op": "LoadStored", "shape": rng.choice(shapes)}
+                else:
+                    if r < 0.35 or w.cfg is None:
+                        name = "r%d_%d" % (t, len(mine))
+                        kind = rng.random()
+                        if kind < 0.7:
+                            SECRETS[name] = "".join(rng.choice(string.ascii_letters + string.digits + " :/-_.") for _ in range(rng.randint(4, 40)))
+                        elif kind < 0.85:
+                            SECRETS[name] = "".join(rng.choice("\u00e9\u00fc\u4e2d\u2603ab") for _ in range(rng.randint(4, 10)))
+                        else:
+                            SECRETS[name] = bytes(rng.randint(0, 255) for _ in range(rng.randint(4, 20)))
+                        mine.append(name)
+                        if isinstance(SECRETS[name], bytes) or rng.random() < 0.6:
+                            ev = {"op": "Assign", "alg": alg, "p": name}
+                        else:
+                            ev = {"op": "LoadPlain", "alg": alg, "p": name}
+                    elif r < 0.75:
+                        ev = {"op": "Challenge", "q": rng.choice(mine + ["a", "empty"])}
+                    else:
+                        ev = {"op": "SaveLoad", "fmt": rng.choice(["json", "yaml", "bson", "xml", "pickle"])}
+                res = w.step(ev)
+                obs = w.observe()
+                rec = dict(ev)
+                for k in ("out", "sv", "ret", "leak"):
+                    if k in res and res[k] is not None:
+                        rec[k] = res[k]
+                rec["store"] = obs["store"]
+                rec["chal"] = obs["chal"]
+                events.append(rec)
+        finally:
+            w.close()
+        traces.append({"init": {}, "events": events})
+    return traces
+
+
 C08_INV = ["C08_ConcreteMethod", "C08_Inverse", "C08_FreshIV", "C08_WrongKey", "C08_XorInvolution", "C08_MalformedRejected"]
 C09_INV = ["C09_Exact", "C09_SaltLen", "C09_HandWrittenHashed"]
 C09_PROP = ["C09_FreshSalt", "C09_Survives"]
@@ -303,7 +374,28 @@ def run_crypto(prop, tier, seed):
             "spec->code: %s differs from the specification: %s" % ({k: v for k, v in m.ev.items() if k in ("op", "key", "m", "i", "shape", "alg", "p", "q", "fmt")}, m.detail[:300]),
             m.to_json(),
         )
-    cases = stats["cases"] + stats2["cases"]
+    # code -> spec
+    from .. import tracecheck
+
+    ntr, ltr = (150, 14) if tier == "quick" else (2000, 24)
+    traces = driver(cinco, prop, seed, ntr, ltr)
+    tcfg = os.path.join(d, "trace.cfg")
+    with open(tcfg, "w") as fp:
+        fp.write("CONSTANTS\n  MaxOps = 999\nINIT TraceInit\nNEXT TraceNext\nVIEW TraceView\nACTION_CONSTRAINT Report\nCONSTRAINT ReportState\n")
+    verdicts, tstats = tracecheck.validate("Trace_Crypto.tla", tcfg, traces, wanted=set(invs) | set(props))
+    for v in [v for v in verdicts if not v.accepted][:20]:
+        k = (v.at or v.consumed + 1) - 1
+        e = v.trace["events"][k] if k < len(v.trace["events"]) else {}
+        out.violation(
+            "trace:%s:%s" % (e.get("op"), ",".join(v.bad_inv or v.bad_obs or ["not-enabled"])),
+            "code->spec: recorded %s trace rejected: %s" % (prop, v.describe()[:300]),
+            v.to_json(),
+        )
+    for t in traces:
+        for e in t["events"]:
+            if e.get("leak"):
+                out.violation("trace:leak:%s" % e["op"], "code->spec: the plaintext appears in %s after %s" % (e["leak"], e["op"]), {"kind": "leak", "event": {k: v for k, v in e.items() if k not in ("store",)}})
+    cases = stats["cases"] + stats2["cases"] + len(verdicts)
     by_op = {k: stats["by_op"].get(k, 0) + stats2["by_op"].get(k, 0) for k in set(stats["by_op"]) | set(stats2["by_op"])}
     distinct = {common.hash_case([cf, ck]) for cf, ck, _ in list(g.cases()) + list(g2.cases())}
     out.coverage = {
@@ -313,6 +405,9 @@ def run_crypto(prop, tier, seed):
         "tlc_instance": "CincoCrypto MaxOps=%d predicates %s" % (maxops, invs + props),
         "traces_validated_against_impl": cases,
         "spec_to_code_by_op": by_op,
+        "code_to_spec_traces": len(verdicts),
+        "code_to_spec_events": sum(len(t["events"]) for t in traces),
+        "code_to_spec_tlc_states": tstats["states"],
         "cases_for_this_property": sum(v for k, v in by_op.items() if k in ops),
         "evaluations": cases,
         "distinct_nontrivial": len(distinct),
